@@ -100,8 +100,8 @@ pub fn check_rendered(model: &mut Model, stats: &mut Stats, r: &Rendered, combos
         }
         // ---------------- the property itself
         if exp.module_shadow {
-            stats.add("inside_F8_region");
-            continue;
+            // F8 is fixed: shadowing inside required modules is judged like everything else
+            stats.add("module_level_shadowing");
         }
         if !exp.clean() {
             match &real {
@@ -573,9 +573,10 @@ pub fn run(report: &mut Report, replay: Option<&str>) {
         let mut rng = Rng::new(seed.wrapping_mul(1000).wrapping_add(tid as u64));
         for i in 0..per_thread {
             let opts = match i % 4 {
-                0 | 1 => GenOptions { defects: false, cycles: false, module_shadow: false },
+                0 => GenOptions { defects: false, cycles: false, module_shadow: false },
+                1 => GenOptions { defects: false, cycles: false, module_shadow: true },
                 2 => GenOptions { defects: true, cycles: false, module_shadow: false },
-                _ => GenOptions { defects: i % 8 == 3, cycles: true, module_shadow: false },
+                _ => GenOptions { defects: i % 8 == 3, cycles: true, module_shadow: i % 8 == 7 },
             };
             let mut prefix_gen = |rng: &mut Rng| -> String {
                 let feat = if rng.chance(1, 4) { Features { luau: true, types: false, metatables: true, dead_code: true, methods: true } } else { Features::lua51() };
